@@ -30,9 +30,10 @@ T3(a, b, c) == <<BehOps(a), BehOps(b), BehOps(c)>>
 GenAll == [Procs -> {BehOps(b) : b \in AllBehNames}]
 GenSome == [Procs -> {BehOps(b) : b \in {"none", "wh404", "twice", "afterw"}}]
 GenClasses == [Procs -> {BehOps(b) : b \in ClassBehNames \cup {"none"}}]
-GenEvery == [Procs -> {BehOps(b) : b \in AllBehNames \cup ClassBehNames \cup HijackBehNames}]
+GenEvery == [Procs -> {BehOps(b) : b \in AllBehNames \cup ClassBehNames \cup HijackBehNames \cup StreamBehNames}]
 GenHijack == [Procs -> {BehOps(b) : b \in HijackBehNames \cup {"none", "wh404"}}]
-GenEvery3 == [Procs -> {BehOps(b) : b \in AllBehNames \cup ClassBehNames \cup HijackBehNames}]
+GenEvery3 == [Procs -> {BehOps(b) : b \in AllBehNames \cup ClassBehNames \cup HijackBehNames \cup StreamBehNames}]
+GenStream == [Procs -> {BehOps(b) : b \in StreamBehNames}]
 GenNeg == [Procs -> {BehOps(b) : b \in {"none", "wh404"}}]
 GenThree == [Procs -> {BehOps(b) : b \in {"none", "wh404", "twice"}}]
 
@@ -63,7 +64,7 @@ FinOf(p) == LET I == {i \in 1..Len(records) : records[i].m = "finished" /\ recor
 Pred(p) == [fin |-> FinOf(p), expected |-> ExpectedFin(ops[p]), allowed |-> AllowedFin(ops[p]),
             status |-> ClientStatus(client[p]), calls |-> client[p]]
 
-Vector == [n |-> Cardinality(Procs), retain |-> Retain, gates |-> GateSet, mwon |-> MwEnabled, forms |-> FormOf, ups |-> UpOf,
+Vector == [n |-> Cardinality(Procs), retain |-> Retain, gates |-> GateSet, mwon |-> MwEnabled, forms |-> FormOf, ups |-> UpOf, writers |-> ClientOf,
            ops |-> [p \in Procs |-> ops[p]],
            sched |-> hist,
            pred |-> [p \in Procs |-> Pred(p)]]
